@@ -175,6 +175,26 @@ def run_interrupted(cfg):
     return r.dump()
 
 
+def run_plain(cfg):
+    """One uninterrupted run on the continuous problem in another namespace / width: the returned evidence and error are the
+    sum of the recorded increments and the root of the summed variances, to the precision of that width."""
+    from checks.c18 import to_rec
+    from env import resume_harness as rh
+
+    r = Report()
+    case = {"plain": True, "cfg": cfg}
+    r.case(explorer.digest(case), nontrivial=True)
+    R = rh.run(cfg)
+    if R.exception is not None:
+        r.violation(f"C08/plain/run-raises/{R.exception[0]}", R.exception, case)
+        return r.dump()
+    for sig, detail in check_evidence(dict(to_rec(R), result=R.result)):
+        r.violation(sig + f"/{cfg.get('ns', 'numpy')}-{cfg.get('dtype') or 'default'}", detail, case)
+    r.outcomes.add(explorer.digest(R.result["log_evidence"]))
+    r.sample(case)
+    return r.dump()
+
+
 def dispatch(job):
     return globals()[job[0]](job[1])
 
@@ -226,6 +246,11 @@ def run(tier, seed, workers):
     jobs = [("run_tree", c) for c in configs(tier)]
     jobs += [("run_direct", (ns, dt)) for ns in ("numpy", "torch", "jax") for dt in ("float64", "float32")]
     for sampler in ("smc", "emcee_smc"):
+        for ns, dt in (("torch", "float64"), ("numpy", "float64")):
+            for nf in (None, 10):
+                jobs.append(("run_plain", {"sampler": sampler, "N": 8, "opts": {"adaptive": True, "target_efficiency": 0.8}, "cadence": None, "n_final": nf,
+                                           "precond": "none", "seed": 0, "ns": ns, "dtype": dt}))
+    for sampler in ("smc", "emcee_smc"):
         for opts in ({"adaptive": True, "target_efficiency": 0.8}, {"adaptive": False, "n_steps": 3}):
             for cadence in (1, 2):
                 for nfinal in (None, 10):
@@ -242,6 +267,9 @@ def replay(case):
     from checks.c06 import _fix
 
     r = Report()
+    if case.get("plain"):
+        r.merge(run_plain(case["cfg"]))
+        return r
     if case.get("direct"):
         r.merge(run_direct((case["ns"], case["dtype"])))
         return r
